@@ -70,7 +70,17 @@ def check_batch(ctx, cases, verdicts, descs, tag):
     open(path, "w").write(src)
     lst = os.path.join(ctx.work, tag + ".txt")
     open(lst, "w").write(path + "\n")
-    rec = harness_json([VH, "sema", lst], timeout=1800)[0]
+    try:
+        rec = harness_json([VH, "sema", lst], timeout=1800)[0]
+    except ToolError as ex:
+        if "overflowed its stack" in str(ex) or "rc=-6" in str(ex):
+            # the front end itself overflows its stack on this batch (the driver does too): a crash of the code under test, not of
+            # the machinery; the batch stays unjudged
+            ctx.add("batches_unjudged_front_end_stack_overflow")
+            ctx.violation(f"the front end overflows its stack on the batch {tag} ({len(cases)} generated modules, {len(src.splitlines())} lines): no verdicts for this batch",
+                          {"source_file": path}, key="frontend-abort:stack-overflow")
+            return
+        raise
     if "panic" in rec:
         ctx.violation(f"the checker panicked on the batch {tag}: {rec['panic'][:300]}", {"source_file": path}, key="checker-panic")
         return
